@@ -380,3 +380,138 @@ let p_result (r : M.run_result) : string =
   | M.ROk o -> p_output o
   | M.RPanic k -> "(panic " ^ p_panic k ^ ")"
   | M.ROutOfFuel -> "(outoffuel)"
+
+(* ---------------------------------------------------------------------------------------------- *)
+(* reading an output back (the implementation's), for the extracted monitors *)
+let rec r_ty x : M.sem_ty =
+  match list_of x with
+  | [ Atom "p"; Atom p ] -> M.SPrim (prim_ty p)
+  | Atom "s" :: Str n :: attrs ->
+      M.SStruct
+        ( cstr n,
+          List.map
+            (fun a ->
+              match list_of a with
+              | [ Atom "a"; Str an; i; t ] -> ((cstr an, n_of_atom i), r_ty t)
+              | _ -> raise (Bad "attr (output)"))
+            attrs )
+  | [ Atom "arr"; t; n ] -> M.SArray (r_ty t, n_of_atom n)
+  | _ -> raise (Bad "type (output)")
+
+let r_pv x : M.prim_val =
+  match list_of x with
+  | [ Atom "pv"; Atom t; n ] -> { M.pv_ty = prim_ty t; pv_bits = z_of_atom n }
+  | _ -> raise (Bad "pv (output)")
+
+let r_value x : M.value =
+  match list_of x with
+  | [ Atom "v"; Str n; t; Atom m; _; _ ] -> { M.v_inner = cstr n; v_ty = r_ty t; v_mut = m <> "0" }
+  | _ -> raise (Bad "value (output)")
+
+let r_eres x : M.eres =
+  match list_of x with
+  | [ Atom "r"; t; v ] ->
+      let rv =
+        match list_of v with
+        | [ Atom "reg"; n ] -> M.RReg (n_of_atom n)
+        | _ -> M.RPrim (r_pv v)
+      in
+      { M.r_ty = r_ty t; r_val = rv }
+  | _ -> raise (Bad "eres (output)")
+
+let r_cv x : M.cval_sem =
+  match list_of x with
+  | [ Atom "cc"; Str n ] -> M.CCs (cstr n)
+  | [ Atom "cv"; v ] -> M.CVs (r_pv v)
+  | _ -> raise (Bad "cv (output)")
+
+let r_const x : M.const_sem =
+  match list_of x with
+  | [ Atom "c"; Str n; t; ce ] ->
+      (match list_of ce with
+       | Atom "ce" :: h :: rest ->
+           { M.c_name = cstr n; c_ty = r_ty t; c_head = r_cv h;
+             c_rest = List.map (fun l -> match list_of l with [ Atom op; v ] -> (binop op, r_cv v) | _ -> raise (Bad "ce link")) rest }
+       | _ -> raise (Bad "ce (output)"))
+  | _ -> raise (Bad "const (output)")
+
+let r_func x : M.func_sem =
+  match list_of x with
+  | [ Atom "f"; Str n; t; ps ] -> { M.f_name = cstr n; f_ty = r_ty t; f_params = List.map r_ty (list_of ps) }
+  | _ -> raise (Bad "func (output)")
+
+let logicop = function "And" -> M.LAnd | "Or" -> M.LOr | s -> raise (Bad ("logic op " ^ s))
+
+let r_instr x : M.instr =
+  match list_of x with
+  | [ Atom "ExpressionValue"; v; r ] -> M.IExprValue (r_value v, n_of_atom r)
+  | [ Atom "ExpressionConst"; c; r ] -> M.IExprConst (r_const c, n_of_atom r)
+  | [ Atom "ExpressionStructValue"; v; i; r ] -> M.IExprStruct (r_value v, n_of_atom i, n_of_atom r)
+  | [ Atom "ExpressionOperation"; Atom op; l; r; n ] -> M.IExprOp (binop op, r_eres l, r_eres r, n_of_atom n)
+  | [ Atom "Call"; f; a; n ] -> M.ICall (r_func f, List.map r_eres (list_of a), n_of_atom n)
+  | [ Atom "LetBinding"; v; e ] -> M.ILet (r_value v, r_eres e)
+  | [ Atom "Binding"; v; e ] -> M.IBind (r_value v, r_eres e)
+  | [ Atom "ExpressionFunctionReturn"; e ] -> M.IFnRet (r_eres e)
+  | [ Atom "ExpressionFunctionReturnWithLabel"; e ] -> M.IFnRetLabel (r_eres e)
+  | [ Atom "SetLabel"; Str l ] -> M.ISetLabel (cstr l)
+  | [ Atom "JumpTo"; Str l ] -> M.IJumpTo (cstr l)
+  | [ Atom "IfConditionExpression"; e; Str a; Str b ] -> M.IIfCondExpr (r_eres e, cstr a, cstr b)
+  | [ Atom "ConditionExpression"; l; r; Atom c; n ] -> M.ICondExpr (r_eres l, r_eres r, cmp c, n_of_atom n)
+  | [ Atom "JumpFunctionReturn"; e ] -> M.IJumpFnRet (r_eres e)
+  | [ Atom "LogicCondition"; Atom o; l; r; n ] -> M.ILogic (logicop o, n_of_atom l, n_of_atom r, n_of_atom n)
+  | [ Atom "IfConditionLogic"; Str a; Str b; n ] -> M.IIfCondLogic (cstr a, cstr b, n_of_atom n)
+  | [ Atom "FunctionArg"; v; p ] ->
+      (match list_of p with
+       | [ Atom "param"; Str pn'; pt ] -> M.IFnArg (r_value v, cstr pn', r_ty pt)
+       | _ -> raise (Bad "param (output)"))
+  | [ Atom "Ext"; t; r ] -> M.IExt (n_of_atom t, n_of_atom r)
+  | _ -> raise (Bad "instr (output)")
+
+let r_ginstr x : M.ginstr =
+  match list_of x with
+  | [ Atom "Types"; t ] -> M.GTypes (r_ty t)
+  | [ Atom "Constant"; c ] -> M.GConst (r_const c)
+  | [ Atom "FunctionDeclaration"; Str n; ps; r; _ ] ->
+      M.GFnDecl
+        ( cstr n,
+          List.map (fun p -> match list_of p with [ Atom "param"; Str pn'; pt ] -> (cstr pn', r_ty pt) | _ -> raise (Bad "param")) (list_of ps),
+          r_ty r )
+  | _ -> raise (Bad "ginstr (output)")
+
+let rec r_block x : M.block =
+  match list_of x with
+  | [ Atom "block"; vals; inner; labels; reg; mret; _parent; ctx; kids ] ->
+      { M.b_values =
+          List.map (fun v -> match list_of v with [ Atom "val"; Str k; vv ] -> (cstr k, r_value vv) | _ -> raise (Bad "val")) (args vals);
+        b_inner = List.map (fun s -> cstr (str_of s)) (args inner);
+        b_labels = List.map (fun s -> cstr (str_of s)) (args labels);
+        b_reg = n_of_atom (List.hd (args reg));
+        b_mret = atom_of (List.hd (args mret)) <> "0";
+        b_ctx = List.map r_instr (args ctx);
+        b_kids = List.map r_block (args kids) }
+  | _ -> raise (Bad "block (output)")
+
+let err_kind_tbl = List.map (fun k -> (ostr (M.err_kind_name k), k)) M.all_err_kind
+
+let r_err x : M.err =
+  match list_of x with
+  | [ Atom "err"; Atom k; v; l; o ] ->
+      { M.e_kind = (try List.assoc k err_kind_tbl with Not_found -> raise (Bad ("error kind " ^ k)));
+        e_val = (match v with Str s -> Some (cstr s) | _ -> None);
+        e_loc = (n_of_atom l, n_of_atom o) }
+  | _ -> raise (Bad "err (output)")
+
+(* [None]: the implementation panicked *)
+let r_output x : M.output option =
+  match list_of x with
+  | Atom "panic" :: _ -> None
+  | [ Atom "out"; errs; tys; cs; fs; gstack; fns ] ->
+      Some
+        { M.o_errors = List.map r_err (args errs);
+          o_globals =
+            { M.g_types = List.map (fun t -> match list_of t with [ Atom "T"; Str k; v ] -> (cstr k, r_ty v) | _ -> raise (Bad "T")) (args tys);
+              g_consts = List.map (fun t -> match list_of t with [ Atom "C"; Str k; v ] -> (cstr k, r_const v) | _ -> raise (Bad "C")) (args cs);
+              g_funcs = List.map (fun t -> match list_of t with [ Atom "F"; Str k; v ] -> (cstr k, r_func v) | _ -> raise (Bad "F")) (args fs) };
+          o_gstack = List.map r_ginstr (args gstack);
+          o_fns = List.map r_block (args fns) }
+  | _ -> raise (Bad "output")
